@@ -617,7 +617,7 @@ func (a *float64Array) exportType() reflect.Type {
 }
 
 func (a *bigInt64Array) toRaw(value Value) uint64 {
-	return toBigInt64(value).Uint64()
+	return uint64(toBigInt64(value).Int64()) // big.Int.Uint64() of a negative value is its magnitude
 }
 
 func (a *bigInt64Array) ptr(idx int) *int64 {
